@@ -28,8 +28,15 @@ def gen_table(rng):
     pool = S.UniquePool(rng, w)
     owner = {}      # char -> (row_key, col)
 
+    # "big" tables: prose-length cells on a very wide console, so that column widths (and ties between them) lie
+    # above 256 - beyond the widths unit tests and most harnesses ever see (and beyond CPython's shared small ints)
+    big = rng.random() < 0.03
+
     def text_cell(row_key, col, allow_nl=True):
-        s = pool.string(rng.choice([0, 2, 6, 14, 30]), space=0.18, newline=0.06 if allow_nl else 0.0)
+        lens = [0, 2, 6, 14, 30]
+        if big and row_key not in ("header", "footer") and col < 2:
+            lens = [280, 400, 400, 650]
+        s = pool.string(rng.choice(lens), space=0.18, newline=0.06 if allow_nl and not big else 0.0)
         for ch in s:
             if not ch.isspace():
                 owner[ch] = (row_key, col)
@@ -49,7 +56,10 @@ def gen_table(rng):
                 "expand": rng.random() < 0.5, "width": None, "padding": 0, "safe_box": None, "style": "none"}
     ncols = rng.choice([1, 2, 2, 3, 4, 6])
     nrows = rng.choice([0, 1, 2, 3, 5, 8])
+    if big:
+        ncols, nrows = rng.choice([2, 3, 3]), rng.choice([1, 2])
     spec = SP.gen_table_spec(rng, 2, {"newlines": True}, ncols=ncols, nrows=nrows)
+    spec["big"] = big
     for j, col in enumerate(spec["columns"]):
         col["header"] = cell("header", j) if rng.random() < 0.8 else {"k": "text", "s": "", "justify": None,
                                                                       "overflow": None, "no_wrap": None, "style": None}
@@ -109,6 +119,8 @@ def table_features(spec, W, m):
         f.append("columns_created_by_rows")
     if spec.get("width") is not None:
         f.append("table_width")
+    if spec.get("big"):
+        f.append("widths_above_256")
     return "+".join(f) or "plain"
 
 
@@ -120,6 +132,9 @@ def wl_tables(ctx, rng, case_no):
     ncols = len(spec["columns"])
     widths_to_try = sorted({m, m + 1, m + 2, rng.randint(m, 200), rng.randint(m, 200), 80, 200})
     widths_to_try = [w for w in widths_to_try if m <= w <= 200]
+    if spec.get("big"):
+        widths_to_try = sorted({200, rng.randint(257, 400), rng.randint(300, 700), rng.randint(500, 1000), 520})
+        ctx.count("big_tables")
     _, pr, _, pl = SP.unpack_pad(spec["padding"])
     own_width = rng.random() if rng.random() < 0.15 else None
     for W in widths_to_try:
